@@ -433,8 +433,23 @@ def same_value(orig, back):
     return {sa, sb} == {(), (1,)}
 
 
-def classify_failure(entries):
+def classify_failure(entries, values=None, back=None):
     """key naming the input class of an accepted-but-unfaithful case"""
+    key = _classify_failure(entries)
+    if key == "float-truncated-in-mixed-column-with-none":
+        # that key is for a change of VALUE; if what came back is numerically equal it is the kind-only promotion
+        lost = False
+        if values is not None and back is not None and len(values) == len(back):
+            for o, b in zip(values, back):
+                if isinstance(o, (float, np.floating)) and o == o and b is not None and not isinstance(b, (list, dict, np.ndarray)):
+                    lost = lost or float(b) != float(o)
+        else:
+            lost = True
+        return key if lost else "mixed-kinds-promoted"
+    return key
+
+
+def _classify_failure(entries):
     kinds = set()
     forms = set()
     has_none = any(e[0] == "n" for e in entries)
@@ -448,6 +463,12 @@ def classify_failure(entries):
         elif e[0] == "d":
             forms.add("dict")
     widths = {(e[2] if e[0] in ("s", "l", "m") else e[1]) for e in entries if e[0] in ("s", "a", "l", "m")}
+    if forms == {"scalar"} and has_none and kinds == {"i", "f"}:
+        scal = [e for e in entries if e[0] == "s"]
+        if _class(scal[0][2]) == "i" and any(_class(e[2]) == "f" and isinstance(e[3], float) and e[3] == e[3]
+                                             and e[3] not in (float("inf"), float("-inf")) and e[3] != int(e[3]) for e in scal):
+            # int first, a None present, a fractional float later: the first value's type is forced on all -> 3.5 reads back 3
+            return "float-truncated-in-mixed-column-with-none"
     if len(kinds) > 1 or (len(widths) > 1 and "dict" not in forms):
         return "mixed-kinds-promoted"
     scal_only = forms == {"scalar"}
@@ -501,7 +522,7 @@ def oracle(ctx, entries, values, res, stream):
         return Failure(classify_failure(entries), "one value per object", case, observed=len(back), expected=len(values))
     for i, (o, b) in enumerate(zip(values, back)):
         if not same_value(o, b):
-            return Failure(classify_failure(entries),
+            return Failure(classify_failure(entries, values, back),
                            "accepted => same values, shapes, numeric kinds and unset positions (up to the documented normalisations)",
                            case, observed={"index": i, "read": repr(b)[:200]}, expected=repr(o)[:200])
     return None
@@ -658,6 +679,8 @@ EXCLUDED_POINTS = [
     ("uint8 value equal to the None sentinel", [("s", True, "u8", 253), ("n",), ("s", True, "u8", 2)]),
     ("int/str mixture", [("s", False, "i64", 1), ("s", False, "str", "a"), ("s", False, "i64", 2)]),
     ("int/float mixture", [("s", False, "i64", 1), ("s", False, "f64", 2.5)]),
+    ("int first, None, fractional float (truncated before fix 045c8d0)", [("s", False, "i64", 3), ("n",), ("s", False, "f64", 3.5)]),
+    ("float first, None, int: kind change only", [("s", False, "f64", 3.5), ("n",), ("s", False, "i64", 3)]),
     ("two-level ragged python lists of different outer length (refused since fix 49d3d18)",
      [("m", False, "i64", [[1, 2], [3]]), ("m", False, "i64", [[4], [5, 6], [7]])]),
     ("numpy bool scalar among ragged arrays (refused since fix 8558ef4)", [("s", True, "b", True), ("l", False, "b", [True, False])]),
@@ -945,6 +968,99 @@ def _direct_oracle(ds, g, vals, case, dt):
     return None
 
 
+# --------------------------------------------------------------------------- replaceNonesWithNonsense on its own
+def _obj_array(vals):
+    a = np.empty(len(vals), dtype=object)
+    for i, x in enumerate(vals):
+        a[i] = x
+    return a
+
+
+def _replace_line(vals):
+    from armi.bookkeeping.db.layout import replaceNonesWithNonsense
+
+    try:
+        r = replaceNonesWithNonsense(_obj_array(vals), "p")
+    except Exception as e:  # noqa: BLE001
+        return "reject", type(e).__name__
+    k = r.dtype.kind
+    name = "str" if k == "U" else "b" if k == "b" else f"{k}{r.dtype.itemsize * 8}"
+    return "ok " + name + " [" + ",".join(sv_canon(x) for x in r.tolist()) + "]", ""
+
+
+# directed columns with a None whose value types differ (outside the one-dtype model): what the code does with them,
+# at the level of replaceNonesWithNonsense and through _writeParams/_readParams. The expected column is the behaviour
+# of the tree this check was written against; a change in EITHER direction (accept <-> refuse, other dtype, other
+# values) is reported as a broken correspondence and then judged by the oracle (a refusal is allowed by the property,
+# a changed value is not).
+def _directed_table():
+    i8, u8, f32, i32, u64 = np.int8, np.uint8, np.float32, np.int32, np.uint64
+    S64, NaN = "i-9223372036854775806", "fnan"
+    return [
+        (["a", None, "bc"], "ok str [s61,s3c214e6f6e65213e,s6263]", "reject"),
+        ([f32(1.5), None], "reject", "reject"),
+        ([i8(3), None, i8(-5)], "ok i8 [i3,i-126,i-5]", "ok sentinel [[s,i,i3],N,[s,i,i-5]]"),
+        ([u8(3), None, u8(200)], "ok u8 [i3,i253,i200]", "ok sentinel [[s,i,i3],N,[s,i,i200]]"),
+        ([True, None, False], "reject", "reject"),
+        ([np.bool_(True), None], "reject", "reject"),
+        ([3, None, True], f"ok i64 [i3,{S64},i1]", "ok sentinel [[s,i,i3],N,[s,i,i1]]"),
+        ([3, None, "a"], "reject", "reject"),
+        ([3, None, 3.5], f"ok f64 [f{fcode(3.0)},{NaN},f{fcode(3.5)}]", f"ok sentinel [[s,f,f{fcode(3.0)}],N,[s,f,f{fcode(3.5)}]]"),
+        ([3.5, None, 3], f"ok f64 [f{fcode(3.5)},{NaN},f{fcode(3.0)}]", f"ok sentinel [[s,f,f{fcode(3.5)}],N,[s,f,f{fcode(3.0)}]]"),
+        ([i32(3), None, 7], f"ok i64 [i3,{S64},i7]", "ok sentinel [[s,i,i3],N,[s,i,i7]]"),
+        ([0, None, 0.96875], f"ok f64 [f{fcode(0.0)},{NaN},f{fcode(0.96875)}]", f"ok sentinel [[s,f,f{fcode(0.0)}],N,[s,f,f{fcode(0.96875)}]]"),
+        ([None, None], f"ok f64 [{NaN},{NaN}]", "skip"),
+    ]
+
+
+def run_replace_nones(ctx, h5file):
+    """(a) the model's `replaceNones` vs the real replaceNonesWithNonsense for one-type scalar columns with Nones (every
+    scalar type, incl. the ones it refuses); (b) the directed mixed-type table, directly and through _writeParams"""
+    rng = ctx.rng
+    req, impl, cases = [], [], []
+    for np_, dt in SCALAR_TYPES:
+        for trial in range(ctx.pick(6, 40)):
+            n = rng.randint(1, 5)
+            ents = [("n",) if rng.random() < 0.4 else ("s", np_, dt, gen_leaf(rng, dt)) for _ in range(n)]
+            if trial == 0:
+                ents = [("s", np_, dt, gen_leaf(rng, dt)), ("n",)]
+            if trial == 1:
+                ents = [("n",), ("n",)]
+            vals = [to_py(e) for e in ents]
+            line, _ = _replace_line(vals)
+            req.append("replnones " + wire(ents)); impl.append(line); cases.append({"entries": entries_json(ents), "op": "replnones"})
+            ctx.case(("replnones", wire(ents)), nontrivial=True)
+            ctx.count("replaceNonesWithNonsense (one type): " + line.split(" ")[0])
+    model = lean_run("Pack", req)
+    ctx.compare("Model/Pack.lean replaceNones vs layout.replaceNonesWithNonsense", cases, model, impl)
+    ctx.evaluations += len(req)
+    stack = Stack()
+    sub = h5file.require_group("directed_columns")
+    for vals, exp_direct, exp_write in _directed_table():
+        got_direct, _ = _replace_line(vals)
+        res = stack.roundtrip(sub, list(vals))
+        got_write = impl_line(res)
+        if got_write.startswith("ok "):
+            got_write = "ok " + got_write.split(" ")[1].split(":")[0] + " " + got_write.split(" ", 2)[2]
+        case = {"directed": repr(vals)}
+        if got_direct != exp_direct:
+            ctx.disagree("directed behaviour table vs replaceNonesWithNonsense", case, exp_direct, got_direct)
+        if got_write != exp_write:
+            ctx.disagree("directed behaviour table vs _writeParams/_readParams", case, exp_write, got_write)
+        # oracle, independent of the table: accepted => every value numerically equal, None exactly where it was
+        if res[0] == "ok":
+            for o, b in zip(vals, res[2]):
+                ok = (b is None) if o is None else (b is not None and not isinstance(b, (list, np.ndarray, dict))
+                                                    and (str(b) == str(o) if isinstance(o, str) else float(b) == float(o)))
+                if not ok:
+                    ctx.fail("value-changed-in-mixed-column-with-none",
+                             "accepted => same values and unset positions (kind promotion aside)", {"directed": repr(vals)},
+                             observed=repr(res[2])[:200], expected=repr(vals)[:200])
+                    break
+        ctx.case(("directed", repr(vals)), nontrivial=True)
+        ctx.count("directed mixed-type columns with None: " + got_write.split(" ")[0])
+
+
 # --------------------------------------------------------------------------- numpy layer validation
 def run_numpy_layer(ctx):
     req, impl, cases = [], [], []
@@ -1055,6 +1171,7 @@ def run(ctx):
         with h5py.File(os.path.join(d, "c05.h5"), "w") as f:
             run_values(ctx, f)
             run_direct_pack(ctx, f)
+            run_replace_nones(ctx, f)
             run_flags(ctx, f)
     ctx.rule = ("type-directed generated per-object value lists (one leaf dtype per parameter in the correspondence "
                 "stream: 15 python/numpy scalar types; forms scalar / fixed-shape 0-d..3-d / ragged / scalar+array / "
